@@ -189,72 +189,96 @@ namespace occa {
     }
 
     inline primitive& operator = (const bool value_) {
+      // The value no longer comes from the literal text it was loaded from
+      source.clear();
       type = primitiveType::bool_;
       value.bool_ = (bool) value_;
       return *this;
     }
 
     inline primitive& operator = (const uint8_t value_) {
+      // The value no longer comes from the literal text it was loaded from
+      source.clear();
       type = primitiveType::uint8_;
       value.uint8_ = (uint8_t) value_;
       return *this;
     }
 
     inline primitive& operator = (const uint16_t value_) {
+      // The value no longer comes from the literal text it was loaded from
+      source.clear();
       type = primitiveType::uint16_;
       value.uint16_ = (uint16_t) value_;
       return *this;
     }
 
     inline primitive& operator = (const uint32_t value_) {
+      // The value no longer comes from the literal text it was loaded from
+      source.clear();
       type = primitiveType::uint32_;
       value.uint32_ = (uint32_t) value_;
       return *this;
     }
 
     inline primitive& operator = (const uint64_t value_) {
+      // The value no longer comes from the literal text it was loaded from
+      source.clear();
       type = primitiveType::uint64_;
       value.uint64_ = (uint64_t) value_;
       return *this;
     }
 
     inline primitive& operator = (const int8_t value_) {
+      // The value no longer comes from the literal text it was loaded from
+      source.clear();
       type = primitiveType::int8_;
       value.int8_ = (int8_t) value_;
       return *this;
     }
 
     inline primitive& operator = (const int16_t value_) {
+      // The value no longer comes from the literal text it was loaded from
+      source.clear();
       type = primitiveType::int16_;
       value.int16_ = (int16_t) value_;
       return *this;
     }
 
     inline primitive& operator = (const int32_t value_) {
+      // The value no longer comes from the literal text it was loaded from
+      source.clear();
       type = primitiveType::int32_;
       value.int32_ = (int32_t) value_;
       return *this;
     }
 
     inline primitive& operator = (const int64_t value_) {
+      // The value no longer comes from the literal text it was loaded from
+      source.clear();
       type = primitiveType::int64_;
       value.int64_ = (int64_t) value_;
       return *this;
     }
 
     inline primitive& operator = (const float value_) {
+      // The value no longer comes from the literal text it was loaded from
+      source.clear();
       type = primitiveType::float_;
       value.float_ = value_;
       return *this;
     }
 
     inline primitive& operator = (const double value_) {
+      // The value no longer comes from the literal text it was loaded from
+      source.clear();
       type = primitiveType::double_;
       value.double_ = value_;
       return *this;
     }
 
     inline primitive& operator = (void *value_) {
+      // The value no longer comes from the literal text it was loaded from
+      source.clear();
       type = primitiveType::ptr;
       value.ptr = (char*) value_;
       return *this;
